@@ -206,6 +206,37 @@ def mk_signal(rng, case, T, B):
     return [[rng.choice(vals) for _ in range(B)] for _ in range(T)]
 
 
+DYADIC = [1.0, -2.0, 0.5, 0.0, -0.75, 2.25]
+INTS = [1.0, -2.0, 0.0, 3.0, -1.0]
+
+
+def is_dyadic(x):
+    return float(x) * 64 == int(float(x) * 64)
+
+
+def mk_forms(rng, case):
+    """how a scalar reward is handed to the trainer at each step: a python float, or a 0-d tensor (float64 / float32 /
+    int64) that must behave exactly like the same float (positive, negative and zero values are drawn).  The values
+    are adjusted to the form: integers for int64; dyadic values (and a dyadic scale) for float32, so that the product
+    signal * scale the trainer forms in the tensor's precision is exact.  Per-sample rewards (lists; with batch size 1 a
+    1-element 1-d tensor) are left alone."""
+    sig = case.get("signal")
+    if sig is None or isinstance(sig[0], list):
+        case["signal_forms"] = None
+        return
+    forms = []
+    for t in range(len(sig)):
+        f = rng.choice([None, None, "t0_f64", "t0_f32", "t0_i64"])
+        if f == "t0_f32" and not is_dyadic(case.get("scale", 1.0)):
+            f = "t0_f64"
+        if f == "t0_i64":
+            sig[t] = rng.choice(INTS)
+        elif f == "t0_f32":
+            sig[t] = rng.choice(DYADIC)
+        forms.append(f)
+    case["signal_forms"] = forms
+
+
 def gen_random(rng: random.Random):
     tr = rng.choice(TRAINERS)
     sp, sq = rng.choice(SIGNS)
@@ -240,6 +271,7 @@ def gen_random(rng: random.Random):
     case["post"] = [[[int(rng.random() < p) for _ in range(n_out)] for _ in range(B)] for _ in range(T)]
     case["signal"] = mk_signal(rng, case, T, B)
     case["scale"] = rng.choice([1.0, 1.0, 0.5, -2.0, 1.7]) if case["signal"] is not None else 1.0
+    mk_forms(rng, case)
     if case["signal"] is not None and isinstance(case["signal"][0], list) and rng.random() < 0.7:
         case["reduction"] = rng.choice([None, "sum"])
     return case
@@ -283,6 +315,45 @@ def gen_offgrid(rng: random.Random):
     case["post"] = [[[int(rng.random() < p) for _ in range(n_out)] for _ in range(B)] for _ in range(T)]
     case["signal"] = mk_signal(rng, case, T, B)
     case["scale"] = 1.0
+    mk_forms(rng, case)
+    if case["signal"] is not None and isinstance(case["signal"][0], list):
+        case["reduction"] = rng.choice([None, "sum"])
+    return case
+
+
+def gen_tolerance(rng: random.Random):
+    """the `delayed` trainer mode with an interp_tolerance > 0 on long delays and step times that are not representable:
+    delays a hair off the grid (k * dt + 5e-5 ms: co-occurring under a tolerance of 1e-4 ms, not under the reducers'
+    built-in 1e-7), a quarter / half step off (co-occurring under 0.3 dt / 0.6 dt) or exactly on it; dense spike trains so
+    that post spikes coincide with the delayed presynaptic arrivals.  Every read of the trainer (trace AND spike views,
+    slow triplet traces) must use the cell's tolerance."""
+    tr = rng.choice(["STDP", "StableSTDP", "TripletSTDP", "StableTripletSTDP", "MSTDP", "MSTDP"])
+    sp, sq = rng.choice(SIGNS)
+    dt = rng.choice([1.3, 0.45, 0.9, 1.05])
+    n_in, n_out, B = rng.randint(1, 2), rng.randint(1, 2), rng.randint(1, 2)
+    kmax = rng.randint(4, 7)
+    tol = rng.choice([1e-4, 1e-4, 0.3 * dt, 0.6 * dt])
+
+    def dly():
+        k = rng.randint(max(1, kmax - 3), kmax - 1)
+        kind = rng.choice(["hair", "hair", "exact", "quarter", "half"])
+        if kind == "hair":
+            return k + 5e-5 / dt
+        if kind == "quarter" and tol >= 0.3 * dt:
+            return k + rng.choice([-0.25, 0.25])
+        if kind == "half" and tol >= 0.6 * dt:
+            return k + 0.5
+        return k
+    T = kmax + rng.randint(2, 5)
+    case = {"trainer": tr, "mode": rng.choice(MODES), "hp": default_hp(sp, sq, rng), "dt": dt, "conn": "dense",
+            "n_in": n_in, "n_out": n_out, "B": B, "kmax": kmax, "delays": [[dly() for _ in range(n_in)] for _ in range(n_out)],
+            "delayed": True, "tol": tol, "reduction": rng.choice([None, "sum", "mean"])}
+    p = rng.choice([0.6, 0.8])
+    case["pre"] = [[[int(rng.random() < p) for _ in range(n_in)] for _ in range(B)] for _ in range(T)]
+    case["post"] = [[[int(rng.random() < p) for _ in range(n_out)] for _ in range(B)] for _ in range(T)]
+    case["signal"] = mk_signal(rng, case, T, B)
+    case["scale"] = 1.0
+    mk_forms(rng, case)
     if case["signal"] is not None and isinstance(case["signal"][0], list):
         case["reduction"] = rng.choice([None, "sum"])
     return case
@@ -347,6 +418,7 @@ def gen_group(rng: random.Random):
     g["signal"] = mk_signal(rng, fake, T, B)
     if g["signal"] is not None:
         g["scale"] = rng.choice([1.0, 0.5, -2.0])
+        mk_forms(rng, g)
         if isinstance(g["signal"][0], list):
             # per-sample signals: only the sum reduction is a per-sample statement
             defaults["reduction"] = rng.choice([None, "sum"])
@@ -440,9 +512,11 @@ def gen_biclique(rng: random.Random, q: int):
     grid[(1, 1)] = copy.deepcopy(grid[(1, 0)])
     change_key(rng, grid[(1, 1)], k2, defaults, dt)
     cells = [{"bic": [i, j], "override": grid[(i, j)]} for (i, j) in ((0, 0), (0, 1), (1, 0), (1, 1))]
-    return {"kind": "biclique", "trainer": tr, "defaults": defaults, "dt": dt, "B": B, "n_out": n_out, "conns": conns,
-            "posts": posts, "cells": cells, "signal": sig, "scale": rng.choice([1.0, 0.5, -2.0]) if sig is not None else 1.0,
-            "differs": {"sharing_neuron": k1, "sharing_connection": k2}}
+    g = {"kind": "biclique", "trainer": tr, "defaults": defaults, "dt": dt, "B": B, "n_out": n_out, "conns": conns,
+         "posts": posts, "cells": cells, "signal": sig, "scale": rng.choice([1.0, 0.5, -2.0]) if sig is not None else 1.0,
+         "differs": {"sharing_neuron": k1, "sharing_connection": k2}}
+    mk_forms(rng, g)
+    return g
 
 
 def gen_scenario(rng: random.Random, q: int):
@@ -468,6 +542,7 @@ def gen_scenario(rng: random.Random, q: int):
     case["post"] = [[[int(rng.random() < p) for _ in range(n_out)] for _ in range(B)] for _ in range(T)]
     case["signal"] = mk_signal(rng, case, T, B)
     case["scale"] = rng.choice([1.0, 0.5]) if case["signal"] is not None else 1.0
+    mk_forms(rng, case)
     if case["signal"] is not None and isinstance(case["signal"][0], list):
         case["reduction"] = rng.choice([None, "sum"])
 
@@ -517,6 +592,7 @@ def gen_conv(rng: random.Random):
     case["post"] = [[[int(rng.random() < p) for _ in range(Fn * oh * ow)] for _ in range(B)] for _ in range(T)]
     case["signal"] = mk_signal(rng, case, T, B)
     case["scale"] = rng.choice([1.0, 0.5, -2.0]) if case["signal"] is not None else 1.0
+    mk_forms(rng, case)
     if case["signal"] is not None and isinstance(case["signal"][0], list):
         case["reduction"] = rng.choice([None, "sum"])
     return case
@@ -539,6 +615,16 @@ def exhaustive_1x1(maxlen, trainers=TRAINERS, with_delay=False):
                         c = {"trainer": tr, "mode": mode, "hp": hp, "dt": 1.0, "conn": "dense", "n_in": 1, "n_out": 1,
                              "B": 1, "kmax": None, "delays": None, "delayed": False, "reduction": None,
                              "pre": pre, "post": post, "signal": sig, "scale": 1.0}
+                        if sig is not None:
+                            # the reward forms rotate over the histories: python floats / 0-d tensors (int64 for the
+                            # integral values, float32 for the dyadic ones, float64) / 1-element 1-d tensors (B = 1)
+                            rot = len(cases) % 4
+                            if rot == 1:
+                                c["signal_forms"] = ["t0_i64", "t0_i64", "t0_f32", "t0_f32", "t0_f64"][:L]
+                            elif rot == 2:
+                                c["signal_forms"] = ["t0_f64"] * L
+                            elif rot == 3:
+                                c["signal"] = [[v] for v in sig]
                         if with_delay:
                             c.update(kmax=2, delays=[[1]], delayed=(len(cases) % 2 == 0))
                         cases.append(c)
@@ -958,6 +1044,7 @@ def run(ctx):
     cases += [gen_conv(rng) for _ in range(24 if quick else 400)]
     cases += [gen_malformed(rng) for _ in range(30 if quick else 300)]
     cases += [gen_offgrid(rng) for _ in range(60 if quick else 600)]
+    cases += [gen_tolerance(rng) for _ in range(48 if quick else 600)]
     # one trainer object, several cells registered with per-cell keyword overrides (incl. a cell without overrides)
     cases += [gen_group(rng) for _ in range(60 if quick else 900)]
     # one trainer on a Biclique layer: cells sharing a neuron group / a connection (and its accumulator), each pair
@@ -998,7 +1085,9 @@ def run(ctx):
                  "accumulator) differing in exactly one register_cell keyword rotating over all of them + SCENARIOS: update "
                  "applied after every call, a checkpoint (layer + trainer state_dict) restored into a twin that ran on other "
                  "data, trainer.clear()+layer.clear(), delays re-assigned through the setter / the Updater between steps "
-                 "(oracle: presynaptic times shifted by the delay in force at each step) + EXHAUSTIVE pre/post histories of length <= %d on 1x1 cells for every trainer x "
+                 "(oracle: presynaptic times shifted by the delay in force at each step); scalar rewards are handed over "
+                 "as python floats or as 0-d tensors (float64 / float32 / int64; positive, negative, zero), per-sample "
+                 "rewards as 1-d tensors (1 element when the batch size is 1) + EXHAUSTIVE pre/post histories of length <= %d on 1x1 cells for every trainer x "
                  "sign mode x trace mode%s; non-trivial = >= 2 steps with at least one pre and one post spike; distinct by "
                  "full case text" % (ex_len, " (+ all length-3 histories for STDP, length <= 2 with a delay)" if quick
                                      else " (+ length <= 4 with a delay in both trainer modes)")),
@@ -1025,6 +1114,10 @@ def run(ctx):
         "conn_distribution": dict(Counter(c["conn"] for c in cells)),
         "reduction_distribution": dict(Counter(eff_reduction(c) for c in cells)),
         "signal_distribution": dict(Counter("none" if c.get("signal") is None else ("per-sample" if isinstance(c["signal"][0], list) else "scalar") for c in cells)),
+        "reward_form_distribution": dict(Counter(
+            ("per-sample 1-d tensor, B=%d" % (c.get("B") or c["cells"][0]["B"]) if isinstance(st, list) else (f or "python float"))
+            for c in cases if c.get("signal") is not None
+            for st, f in zip(c["signal"], c.get("signal_forms") or [None] * len(c["signal"])))),
         "impl_errors": sum(1 for r in impl if not r.get("ok")),
         "malformed_stream": dict(Counter("%s/%s" % (c.get("malformed"), "accepted" if r.get("ok") else "refused") for c, r in zip(cases, impl) if c.get("malformed"))),
     }
